@@ -57,6 +57,42 @@ Theorem C16_flag_constant_during_auth : forall S (m : mech S) active name rest s
 Proof. exact loop_active. Qed.
 Print Assumptions C16_flag_constant_during_auth.
 
+(* T1: the window is opened on entry exactly when auth-data logging is off, whatever c.debug is at that moment *)
+Theorem C16_source_entry_opens_window : forall lad dbg, Gen.smtp_auth_entry_opens lad dbg = negb lad.
+Proof. exact gen_entry_opens. Qed.
+Print Assumptions C16_source_entry_opens_window.
+
+(* debug logging switched on / off, the logger replaced, SetLogAuthData called - at any moment WHILE Auth runs (from the
+   mechanism or another goroutine): whatever selection of the records reaches whatever logger, every record is clean.
+   (auth_x: logAuthData read on entry = false, any value at exit; the redaction of a record depends on authIsActive alone.) *)
+Theorem C16_any_selection_of_records_clean :
+  forall S (m : mech S) (s : S) (lad_exit a0 : bool) (script : list reply) (sel : list logrec),
+    incl sel (o_log (f_out (auth_x m false lad_exit a0 s script))) ->
+    Forall (fun r => r = {| lr_c2s := true; lr_text := redacted |} \/
+                     exists rep, (rep = RBad \/ In rep script) /\ r = rec_s2c true rep) sel.
+Proof. exact auth_any_selection_clean. Qed.
+Print Assumptions C16_any_selection_of_records_clean.
+
+(* T1: the deferred function of Auth clears authIsActive unconditionally (proposed_fixes/C16-auth-window-closes-after-optin.diff).
+   Before that repair the deferred function read "if !c.logAuthData": with SetLogAuthData called while Auth runs the flag
+   stayed set and all later traffic was logged redacted (C16_before_fix_window_stays_open_refuted). *)
+Theorem C16_source_defer_unconditional : Gen.smtp_auth_defer_unconditional = true.
+Proof. exact gen_defer_unconditional. Qed.
+Print Assumptions C16_source_defer_unconditional.
+
+(* the window is closed at every return of Auth also when logAuthData changes while it runs *)
+Theorem C16_window_closes_whatever_changes :
+  forall S (m : mech S) (s : S) (lad_entry lad_exit a0 : bool) (script : list reply),
+    f_active (auth_x m lad_entry lad_exit a0 s script) = false.
+Proof. exact auth_x_window_closed. Qed.
+Print Assumptions C16_window_closes_whatever_changes.
+
+Theorem C16_before_fix_window_stays_open_refuted :
+  forall S (m : mech S) (s : S) (a0 : bool) (script : list reply),
+    Gen.smtp_auth_defer_unconditional = false -> f_active (auth_x m false true a0 s script) = true.
+Proof. exact optin_during_auth_leaves_window_open. Qed.
+Print Assumptions C16_before_fix_window_stays_open_refuted.
+
 (* so traffic after authentication is logged verbatim *)
 Theorem C16_after_auth_plain :
   forall S (m : mech S) (s : S) (lad : bool) (script : list reply) (line : bytes) (c : N) (t : bytes),
